@@ -79,7 +79,18 @@ func init() {
 					c.Sample = "with failing commands: " + c.Sample
 				}
 			}
-			inc := RunInc(w, c.Tape, nil, 0, IncOpts{KillAt: -1, Strategy: strategyOf(c.Tape), Trace: c.Trace, Race: true, Fault: fault, Fault2: fault2})
+			var root *simrt.Inode
+			nextIno := 0
+			if fault == nil && c.Tape.Choose(simrt.StGen, 4, 0) == 1 {
+				// a re-run on top of existing outputs: several tasks of one process take
+				// the "already done" path concurrently
+				for i := range w.Nodes {
+					w.Nodes[i].TagArgs = nil // (pre-placed files come without audit files, hence without tags)
+				}
+				root, nextIno = preplace(c, w, Eval(w), false)
+				c.Sample = "on top of existing outputs: " + c.Sample
+			}
+			inc := RunInc(w, c.Tape, root, nextIno, IncOpts{KillAt: -1, Strategy: strategyOf(c.Tape), Trace: c.Trace, Race: true, Fault: fault, Fault2: fault2})
 			c.Absorb(inc)
 			if v, ok := inconclusiveEnd(inc); ok {
 				return v
